@@ -174,7 +174,11 @@ def materialise(spec, prefix, kind="vcf.gz+tbi", block_size=0xFF00, records=None
         w.close()
         rd.close()
         tmp.unlink()
-        pysam.bcftools.index(str(path), "-f", "-m", str(min_shift), catch_stdout=False)
+        try:
+            pysam.bcftools.index(str(path), "-f", "-m", str(min_shift), catch_stdout=False)
+        except Exception:  # noqa: BLE001
+            # bcftools refuses some min_shift values for large / unknown contig lengths: fall back to the default
+            pysam.bcftools.index(str(path), "-f", catch_stdout=False)
         return path
     raise ValueError(kind)
 
@@ -205,7 +209,7 @@ def simple_file(rng, nrec=20, ncontig=2, small_coords=False, long_refs=False, sa
                 span=None):
     """fixed fields only (plus optional trivially-genotyped samples): for index / partition / region-index work"""
     names = [f"c{i}" for i in range(ncontig)]
-    contigs = [[nm, rng.choice([None, 10**6, 2**31 - 1]) if not small_coords else 200] for nm in names]
+    contigs = [[nm, rng.choice([None, 10**7, 2**31 - 1]) if not small_coords else 200] for nm in names]
     used = [i for i in range(ncontig) if not unused_contigs or rng.random() < 0.8] or [0]
     counts = [0] * ncontig
     for _ in range(nrec):
